@@ -6,20 +6,20 @@ Require Import Base Text AntlrItem.
 Require AntlrLexer.
 Import ListNotations.
 
-Definition edges_of (tbl : list (nat * list ledge)) (s : nat) : list ledge :=
-  match find (fun p => Nat.eqb (fst p) s) tbl with Some p => snd p | None => [] end.
+Definition edges_of (tbl : list (N * list ledge)) (s : N) : list ledge :=
+  match find (fun p => N.eqb (fst p) s) tbl with Some p => snd p | None => [] end.
 
-Definition mem_nat (x : nat) (l : list nat) : bool := existsb (Nat.eqb x) l.
+Definition mem_N (x : N) (l : list N) : bool := existsb (N.eqb x) l.
 
 (* epsilon closure: worklist, `seen` accumulates; fuel = number of states suffices *)
-Fixpoint closure (tbl : list (nat * list ledge)) (fuel : nat) (work seen : list nat) : list nat :=
+Fixpoint closure (tbl : list (N * list ledge)) (fuel : nat) (work seen : list N) : list N :=
   match fuel with
   | O => seen
   | S f =>
     match work with
     | [] => seen
     | s :: rest =>
-      if mem_nat s seen then closure tbl f rest seen
+      if mem_N s seen then closure tbl f rest seen
       else let eps := flat_map (fun e => match e with LEps t => [t] | LChars _ _ => [] end) (edges_of tbl s) in
            closure tbl f (eps ++ rest) (s :: seen)
     end
@@ -28,34 +28,34 @@ Fixpoint closure (tbl : list (nat * list ledge)) (fuel : nat) (work seen : list 
 Definition in_ranges (c : N) (rs : list (N * N)) : bool := existsb (fun r => N.leb (fst r) c && N.leb c (snd r)) rs.
 
 (* states reached from `cur` by consuming character code c (before closure) *)
-Definition move (tbl : list (nat * list ledge)) (cur : list nat) (c : N) : list nat :=
+Definition move (tbl : list (N * list ledge)) (cur : list N) (c : N) : list N :=
   flat_map (fun s => flat_map (fun e => match e with LChars rs t => if in_ranges c rs then [t] else [] | LEps _ => [] end) (edges_of tbl s)) cur.
 
 (* the first rule (in rule order) whose stop state is in the current set *)
-Fixpoint accepting (acc : list (nat * Z)) (cur : list nat) : option Z :=
+Fixpoint accepting (acc : list (N * Z)) (cur : list N) : option Z :=
   match acc with
   | [] => None
-  | (s, ty) :: rest => if mem_nat s cur then Some ty else accepting rest cur
+  | (s, ty) :: rest => if mem_N s cur then Some ty else accepting rest cur
   end.
 
-Definition eps_count (tbl : list (nat * list ledge)) : nat :=
+Definition eps_count (tbl : list (N * list ledge)) : nat :=
   length (flat_map (fun p => flat_map (fun e => match e with LEps t => [t] | LChars _ _ => [] end) (snd p)) tbl).
 
 Section Sim.
-  Variable tbl : list (nat * list ledge).
-  Variable acc : list (nat * Z).
+  Variable tbl : list (N * list ledge).
+  Variable acc : list (N * Z).
   Variable cfuel : nat.      (* closure fuel: every state is expanded at most once, so |work| + number of epsilon edges + 1 pops suffice *)
-  Definition clos (l : list nat) : list nat := closure tbl (cfuel + length l) l [].
+  Definition clos (l : list N) : list N := closure tbl (cfuel + length l) l [].
 
   (* the character edges leaving a set of states *)
-  Definition out_chars (cur : list nat) : list (list (N * N) * nat) :=
+  Definition out_chars (cur : list N) : list (list (N * N) * N) :=
     flat_map (fun s => flat_map (fun e => match e with LChars rs t => [(rs, t)] | LEps _ => [] end) (edges_of tbl s)) cur.
-  Definition targets (es : list (list (N * N) * nat)) (c : N) : list nat :=
+  Definition targets (es : list (list (N * N) * N)) (c : N) : list N :=
     flat_map (fun e => if in_ranges c (fst e) then [snd e] else []) es.
 
   (* scan: `es` = character edges leaving the closed state set reached by the characters consumed so far;
      best = last (type, rest) seen with an accepting set *)
-  Fixpoint scan (es : list (list (N * N) * nat)) (inp : text) (best : option (Z * text)) : option (Z * text) :=
+  Fixpoint scan (es : list (list (N * N) * N)) (inp : text) (best : option (Z * text)) : option (Z * text) :=
     match inp with
     | [] => best
     | c :: r =>
@@ -66,9 +66,9 @@ Section Sim.
     end.
 
   (* init = character edges leaving the closure of the start state of the mode, computed once per text *)
-  Definition lex1_nfa (init : list (list (N * N) * nat)) (inp : text) : option (Z * text) := scan init inp None.
+  Definition lex1_nfa (init : list (list (N * N) * N)) (inp : text) : option (Z * text) := scan init inp None.
 
-  Fixpoint lex_nfa_fuel (fuel : nat) (init : list (list (N * N) * nat)) (inp : text) : option (list Z) :=
+  Fixpoint lex_nfa_fuel (fuel : nat) (init : list (list (N * N) * N)) (inp : text) : option (list Z) :=
     match inp with
     | [] => Some []
     | _ => match fuel with
@@ -83,8 +83,11 @@ End Sim.
 
 Definition lexer_cfuel : nat := S (eps_count AntlrLexer.lexer_edges).
 
+(* the character edges leaving the closure of the start state: a closed constant, so that the extracted program
+   computes it once (at start-up) and not once per text *)
+Definition lexer_init_edges : list (list (N * N) * N) :=
+  out_chars AntlrLexer.lexer_edges (clos AntlrLexer.lexer_edges lexer_cfuel [AntlrLexer.lexer_start]).
+
 (* the token types the ANTLR lexer emits for a text (EOF not included), None = the lexer reports an error *)
 Definition antlr_lex (s : text) : option (list Z) :=
-  let cf := lexer_cfuel in
-  let init := out_chars AntlrLexer.lexer_edges (clos AntlrLexer.lexer_edges cf [AntlrLexer.lexer_start]) in
-  lex_nfa_fuel AntlrLexer.lexer_edges AntlrLexer.lexer_accept cf (length s) init s.
+  lex_nfa_fuel AntlrLexer.lexer_edges AntlrLexer.lexer_accept lexer_cfuel (length s) lexer_init_edges s.
